@@ -82,6 +82,91 @@ theorem C01_roundtrip_linear_leaf (enc : Option Enc) (hk : int32Known enc = true
     simpa [encodeDct] using he
   · exact C01_linear_leaf_decode (.std .int32 enc hl bl none false) phys d s hm hd0 i z hvalid hexI hp fuel _ _ true (by simpa [decodeDct] using hx)
 
+/-- **Strict encoding of a LINEAR / TEXTTABLE leaf refines the C07 model** (any diag-coded type): whenever the strict
+    encoder accepts an atom for such a DOP, the method object exists, the value is one the method declares valid
+    (`Method.validP`), what reaches the diag-coded type is `Method.p2i` of it, and that internal value is declared valid
+    (`Method.validI`). Hence every C07 theorem about `p2i`/`validP`/`validI` (formula, rounding, limits, TEXTTABLE inverse) holds
+    of what the codec model encodes. The converse fails only by `unmodelled` (exactness guard). -/
+theorem C01_compu_leaf_strict_encode (dct : Dct) (phys : BaseType) (cm : CCompu) (hni : cm ≠ .identical) (hno : cm ≠ .other)
+    (v : IVal) (fuel : Nat) (es es' : EncState)
+    (h : encodeDop (fuel + 1) (.simple dct phys cm) (.atom v) es true = .ok ((), es')) :
+    ∃ m p i r, cm.method? dct.baseType phys = some m ∧ toVal? v = some p ∧ m.validP p = .ok true ∧ m.p2i p = .ok i ∧
+      m.validI i = .ok true ∧ ofVal? i false = some r ∧ encodeDct dct r es true = .ok ((), es') := by
+  unfold encodeDop at h
+  cases cm with
+  | identical => exact absurd rfl hni
+  | other => exact absurd rfl hno
+  | linear d =>
+    simp only [] at h
+    cases hm : (CCompu.linear d).method? dct.baseType phys with
+    | none => simp [hm, run_raise] at h
+    | some m =>
+      simp only [hm, bind, run_bind] at h
+      cases hc : (dopP2I m v : EncM IVal) es true with
+      | error e => simp [hc] at h
+      | ok x =>
+        obtain ⟨r, s1⟩ := x
+        obtain ⟨p, i, h1, h2, h3, h4, h5, rfl⟩ := dopP2I_strict m v r es s1 hc
+        simp only [hc] at h
+        exact ⟨m, p, i, r, rfl, h1, h2, h3, h4, h5, h⟩
+  | texttable scs =>
+    simp only [] at h
+    cases hm : (CCompu.texttable scs).method? dct.baseType phys with
+    | none => simp [hm, run_raise] at h
+    | some m =>
+      simp only [hm, bind, run_bind] at h
+      cases hc : (dopP2I m v : EncM IVal) es true with
+      | error e => simp [hc] at h
+      | ok x =>
+        obtain ⟨r, s1⟩ := x
+        obtain ⟨p, i, h1, h2, h3, h4, h5, rfl⟩ := dopP2I_strict m v r es s1 hc
+        simp only [hc] at h
+        exact ⟨m, p, i, r, rfl, h1, h2, h3, h4, h5, h⟩
+
+/-- **Strict decoding of a LINEAR / TEXTTABLE leaf refines the C07 model**: whatever the strict decoder returns for such a
+    DOP is an atom — `Method.i2p` of the internal value the diag-coded type extracted, which the method declares valid. -/
+theorem C01_compu_leaf_strict_decode (dct : Dct) (phys : BaseType) (cm : CCompu) (hni : cm ≠ .identical) (hno : cm ≠ .other)
+    (fuel : Nat) (ds ds' : DecState) (pv : PVal)
+    (h : decodeDop (fuel + 1) (.simple dct phys cm) ds true = .ok (pv, ds')) :
+    ∃ m iv i p x, cm.method? dct.baseType phys = some m ∧ decodeDct dct ds true = .ok (iv, ds') ∧ toVal? iv = some i ∧
+      m.validI i = .ok true ∧ m.i2p i = .ok p ∧ ofVal? p (negZeroOf m) = some x ∧ pv = .atom x := by
+  unfold decodeDop at h
+  simp only [bind, run_bind] at h
+  cases hd : decodeDct dct ds true with
+  | error e => simp [hd] at h
+  | ok y =>
+    obtain ⟨iv, s1⟩ := y
+    simp only [hd] at h
+    cases cm with
+    | identical => exact absurd rfl hni
+    | other => exact absurd rfl hno
+    | linear d =>
+      cases hm : (CCompu.linear d).method? dct.baseType phys with
+      | none => simp [hm, run_raise] at h
+      | some m =>
+        simp only [hm, run_bind] at h
+        cases hc : (dopI2P m iv : DecM (Option IVal)) s1 true with
+        | error e => simp [hc] at h
+        | ok z =>
+          obtain ⟨r, s2⟩ := z
+          obtain ⟨i, p, x, h1, h2, h3, h4, rfl, rfl⟩ := dopI2P_strict m iv r s1 s2 hc
+          simp [hc, pure, run_pure] at h
+          obtain ⟨rfl, rfl⟩ := h
+          exact ⟨m, iv, i, p, x, rfl, rfl, h1, h2, h3, h4, rfl⟩
+    | texttable scs =>
+      cases hm : (CCompu.texttable scs).method? dct.baseType phys with
+      | none => simp [hm, run_raise] at h
+      | some m =>
+        simp only [hm, run_bind] at h
+        cases hc : (dopI2P m iv : DecM (Option IVal)) s1 true with
+        | error e => simp [hc] at h
+        | ok z =>
+          obtain ⟨r, s2⟩ := z
+          obtain ⟨i, p, x, h1, h2, h3, h4, rfl, rfl⟩ := dopI2P_strict m iv r s1 s2 hc
+          simp [hc, pure, run_pure] at h
+          obtain ⟨rfl, rfl⟩ := h
+          exact ⟨m, iv, i, p, x, rfl, rfl, h1, h2, h3, h4, rfl⟩
+
 /-! non-vacuity: `phys = (1 + 5x)/1` on `[2, 15]`, 8-bit sign-magnitude object at bit position 0 (the LINEAR method of
     tests/test_compu_methods.py::test_linear_compu_method_limits); internal 4 ↔ physical 21 -/
 def exLin : LinDesc := { num0 := 1, num1 := 5, den := 1, lower := some (2, false), upper := some (15, false) }
@@ -117,5 +202,19 @@ example : failsWith (encodeMessage none exLinParams (.dict [("x", .atom (.int 77
 example : failsWith (decodeMessage none exLinParams [0x22, 0x01] true) .decode = true := by decide +kernel
 example : decodesTo (decodeMessage none exLinParams [0x22, 0x01] false)
     (.dict [("sid", .atom (.int 0x22)), ("x", .none)]) 2 = true := by decide +kernel
+
+
+/-! non-vacuity of the refinement theorems: a TEXTTABLE leaf (`0..3 ↦ "lo"`, `4..9 ↦ "hi"` with COMPU-INVERSE-VALUE 9) encodes
+    and decodes in strict mode -/
+def exTT : CCompu := .texttable [{ lo := .int 0, hi := .int 3, text := [0x6c, 0x6f], inv := none },
+                                 { lo := .int 4, hi := .int 9, text := [0x68, 0x69], inv := some (.int 9) }]
+def exTTParams : List Param :=
+  [.mk "x" none none (.value (.simple (.std .uint32 none true 8 none false) .unicode2 exTT) none)]
+example : exTT ≠ .identical ∧ exTT ≠ .other := ⟨by simp [exTT], by simp [exTT]⟩
+example : (encodeMessage none exTTParams (.dict [("x", .atom (.str [0x68, 0x69]))]) none true).toOption = some ([9], 0) := by
+  decide +kernel
+example : decodesTo (decodeMessage none exTTParams [5] true) (.dict [("x", .atom (.str [0x68, 0x69]))]) 1 = true := by
+  decide +kernel
+example : failsWith (decodeMessage none exTTParams [10] true) .decode = true := by decide +kernel
 
 end OdxVerif.Codec
